@@ -51,7 +51,7 @@ def case_coq(i, am: AM, engine, runs, results, probe=False):
                                                                "true" if probe else "false", i, core.cl(rows)))
 
 
-def check(cases, name, shard=25, par=14, workers=14, max_tokens=8000):
+def check(cases, name, shard=25, par=14, workers=14, max_tokens=30000):
     """cases: list of (am, engine, runs[, opts]).  Returns (disagreements, stats)."""
     cases = [c if len(c) == 4 else (c[0], c[1], c[2], None) for c in cases]
     results = run_impl(cases, workers)
@@ -87,7 +87,8 @@ def check(cases, name, shard=25, par=14, workers=14, max_tokens=8000):
             for b in bad:
                 am, engine, runs, opts = cases[i]
                 disagreements.append(dict(component="K-macro-" + engine[0], case=dict(config=am.to_config(**{k: v for k, v in (opts or {}).items() if k != 'probe_can'}), engine=engine,
-                                          ctx=runs[b][0], events=runs[b][1], case_index=i, run_index=b),
+                                          ctx=runs[b][0], events=runs[b][1], case_index=i, run_index=b, opts=opts,
+                                          am_b64=__import__('base64').b64encode(__import__('pickle').dumps(am)).decode()),
                                           impl=results[i][b], model="differs (rerun with --replay for the model's trace)",
                                           am=am))
     return disagreements, dict(machines=len(cases), runs=runs_total, skipped_large=skipped_large), results, cases
